@@ -132,9 +132,15 @@ def _mk_unit(n0, niter, storage, sym, tiers, prop="C10", klist_part=10):
             for c in new:
                 for tgt in range(0, c):
                     patterns.append((c, tgt))
+            if new_points:
+                patterns += [("all", tgt) for tgt in range(first_new)]          # EVERY new point absorbed by an earlier one: nothing is left to evaluate in this iteration
             pat = patterns[ctx().choose(len(patterns), "merge pattern")]
             world["merges"].append(pat)
-            if pat is not None:
+            if pat is not None and pat[0] == "all":
+                for c in reversed(new):
+                    K_list[pat[1]].factor = K_list[pat[1]].factor + K_list[c].factor
+                    del K_list[c]
+            elif pat is not None:
                 c, tgt = pat
                 K_list[tgt].factor = K_list[tgt].factor + K_list[c].factor
                 del K_list[c]
@@ -238,6 +244,11 @@ def _mk_unit(n0, niter, storage, sym, tiers, prop="C10", klist_part=10):
         U.run(body, check_feasible=False, max_paths=200000)
         U.external("KpointBZ.divide: children carry weight/n, parent weight 0 (C06); exclude_equiv_points: a new point absorbed by an earlier equivalent point and deleted, weights conserved, old indices kept (C06)")
 
+
+# the callee contract run() relies on (children carry weight/n and NO result, the parent weight 0), discharged on divide itself (unit shared with C06)
+from contracts.C06 import _divide_unit as _c06_divide
+_c06_divide((3, 3, 3), (True, True, True), prop="C10")
+_c06_divide((2, 2, 1), (True, True, False), prop="C10")
 
 _mk_unit(2, 1, "memory", True, ("quick", "thorough"))
 _mk_unit(2, 2, "memory", True, ("quick", "thorough"))
